@@ -1,2 +1,4 @@
 from props.client_props import gen_c07
-PROP = {"id": "C07", "stages": [{"name": "client", "target": "h_client", "gen": gen_c07, "shard": 12}], "trivial_tags": [], "rule": "", "assumptions": []}
+PROP = {"id": "C07", "stages": [{"name": "client", "target": "h_client", "gen": gen_c07, "shard": 12}], "trivial_tags": [],
+        "rule": 'every negative code of a 13-code list x {set-up, main command} x {download, upload, listing} x four methods, each followed by a normal operation, plus random histories interleaving refused and accepted operations; recording sink/source, descriptor table, returned replies, unread bytes, lockstep of the next call.',
+        "assumptions": ["in-memory control transport (a socket_base subclass) stands in for the TCP control socket; data connections are real loopback TCP", "oracle values (read sizes, kernel-chosen ports, connect results) are taken from the implementation run"]}
